@@ -285,10 +285,60 @@ pub fn c09_instances(_tier: Tier) -> Vec<Instance> {
     out
 }
 
+/// The flag reaches the connection from the builder: connect over loopback TCP to a server that
+/// sends a VER with the given version.
+fn builder_gate_case(tokio_impl: bool, verify: Option<bool>, version: u8) -> Result<String, String> {
+    use std::io::Write;
+    let l = std::net::TcpListener::bind("127.0.0.1:0").map_err(|e| e.to_string())?;
+    let mut b = insim::tcp(l.local_addr().unwrap()).connect_timeout(std::time::Duration::from_secs(2));
+    if let Some(v) = verify { b = b.verify_version(v); }
+    let frame = f_ver(true, version);
+    if tokio_impl {
+        let rt = tokio::runtime::Builder::new_current_thread().enable_io().enable_time().build().unwrap();
+        rt.block_on(async move {
+            let mut conn = tokio::time::timeout(std::time::Duration::from_secs(2), b.connect_async()).await.map_err(|_| "connect timed out".to_string())?.map_err(|e| e.to_string())?;
+            let (mut s, _) = l.accept().map_err(|e| e.to_string())?;
+            s.write_all(&frame).map_err(|e| e.to_string())?;
+            let r = tokio::time::timeout(std::time::Duration::from_secs(2), conn.read()).await.map_err(|_| "read timed out".to_string())?;
+            Ok(crate::e2::world::render(&r))
+        })
+    } else {
+        let mut conn = b.connect_blocking().map_err(|e| e.to_string())?;
+        let (mut s, _) = l.accept().map_err(|e| e.to_string())?;
+        s.write_all(&frame).map_err(|e| e.to_string())?;
+        Ok(crate::e2::world::render(&conn.read()))
+    }
+}
+
 pub fn c09(tier: Tier, replay: Option<String>) -> i32 {
+    if replay.is_none() {
+        // builder -> connection: default is "verify", verify_version(false) switches the gate off
+        for tokio_impl in [false, true] {
+            for verify in [None, Some(true), Some(false)] {
+                for version in [9u8, 8, 0, 10, 255] {
+                    let gate = verify.unwrap_or(true);
+                    let want_ok = !gate || version == 9;
+                    match crate::report::guard(|| builder_gate_case(tokio_impl, verify, version)) {
+                        Ok(Ok(r)) => {
+                            let ok = if want_ok { r.starts_with("Ok(Ver(") } else { r == format!("Err(IncompatibleVersion({version}))") };
+                            if !ok {
+                                println!("VIOLATION property=C09 replay=/verif/replays/C09/builder-gate.json");
+                                println!("  signature: C09|builder-gate|{}", if tokio_impl { "tokio" } else { "blocking" });
+                                println!("  witness:   connect_{} with verify_version {verify:?} and a VER of version {version}: read returned {}", if tokio_impl { "async" } else { "blocking" }, r.chars().take(80).collect::<String>());
+                                let _ = std::fs::create_dir_all("/verif/replays/C09");
+                                let _ = std::fs::write("/verif/replays/C09/builder-gate.json", json!({"property": "C09", "site": "builder-gate", "tokio": tokio_impl, "verify": verify, "version": version}).to_string());
+                                return 1;
+                            }
+                        },
+                        other => { eprintln!("MACHINERY: builder gate case failed: {other:?}"); return 4; },
+                    }
+                }
+            }
+        }
+    }
     finish("C09", tier, replay, c09_instances(tier),
-        "instances: every InSim version value 0..=255 x verification {on, off} x {blocking, tokio} x 4 positions in a packet history x both modes, delivered whole and byte by byte; every non-version kind with verification on; oracle: a VER is delivered iff (not verifying or version = 9), otherwise IncompatibleVersion(v) with that v; later packets are still delivered",
-        vec![])
+        "instances: every InSim version value 0..=255 x verification {on, off} x {blocking, tokio} x 4 positions in a packet history x both modes, delivered whole and byte by byte; histories with two VER packets (VER 9 / VER 8 before or after every version); every non-version kind with verification on; 30 loopback connects through the Builder (default / verify_version(true) / verify_version(false) x 5 versions x blocking/tokio); oracle: a VER is delivered iff (not verifying or version = 9), otherwise IncompatibleVersion(v) with that v; later packets are still delivered",
+        vec!["the builder-gate connects run before the search; a failure there is reported at once".into()])
 }
 
 // ---------------------------------------------------------------------------------------------
